@@ -377,6 +377,8 @@ fn law_run<B: ops::HalBackend>(m: &poulpy_hal::layouts::Module<B>, lc: &LawCase)
             if g != gm {
                 return Verdict::fail("law|galois_element", format!("galois_element({gen_}) = {g}, model {gm}, N={n}"));
             }
+            // the inverse is defined on the whole group (Z/2NZ)*: half of the cases take any odd representative in (-4N, 4N)
+            let g = if lc.k & 2 == 0 { g } else { ((lc.k >> 2).rem_euclid(8 * n as i64) - 4 * n as i64) | 1 };
             let ginv = m.galois_element_inv(g);
             if (g as i128 * ginv as i128).rem_euclid(two_n as i128) != 1 {
                 return Verdict::fail("law|galois_element_inv", format!("g={g} ginv={ginv} g*ginv mod 2N != 1, N={n}"));
